@@ -50,3 +50,12 @@ Proof. vm_compute. auto. Qed.
 
 Print Assumptions C14_holds.
 Print Assumptions C14_multi_address_holds.
+
+(* "the next invocation acquires the lock at once" needs a lone invocation to be able to acquire at all: whatever list of socket
+   addresses the resolver returns - repeats included - with nobody else alive the acquisition succeeds. *)
+Definition C14_lone_acquires_statement (acquire_alone : list nat -> bool) : Prop := forall resolved, acquire_alone resolved = true.
+Theorem C14_lone_acquires_holds : C14_lone_acquires_statement (acquire_alone true).
+Proof. exact lone_process_acquires. Qed.
+Example C14_lone_acquires_nonvacuous : acquire_alone true [7; 7; 3; 7] = true /\ nodup Nat.eq_dec [7; 7; 3; 7] = [3; 7].
+Proof. vm_compute. split; reflexivity. Qed.
+Print Assumptions C14_lone_acquires_holds.
